@@ -36,14 +36,14 @@ OUTSIDE = ["n above the enumerated bound (part A)", "alphas other than {0.5, 0.7
            "the bootstrap estimator's run beyond its gate (its numeric core is stubbed elsewhere)"]
 BOUNDS = {"quick": "part A: every double alpha in (0,1) x n in 1..16,20,24,32,40 (NP), n in 7..200 (GA, concrete); part B: NP alphas {0.5},{0.7},"
                    "{0.5,0.7} with 2..8 modelled reporting units, GA with 5..8, BS with 9..11; duplicate-id rejection",
-          "thorough": "part A: n in 1..200 plus ladder 250..5000"}
+          "thorough": "part A: n in 1..100 plus ladder 120..5000"}
 OPTS = {"quick": dict(case_timeout_s=900, solver_timeout_ms=600000), "thorough": dict(case_timeout_s=3400, solver_timeout_ms=1800000)}
 
 
 def cases(tier):
     out = []
-    ns = (list(range(1, 17)) + [20, 24, 32, 40]) if tier == "quick" else list(range(1, 201)) + [
-        250, 320, 400, 500, 640, 800, 1000, 1300, 1600, 2000, 2500, 3200, 4000, 5000]
+    ns = (list(range(1, 17)) + [20, 24, 32, 40]) if tier == "quick" else list(range(1, 101)) + [
+        120, 150, 200, 250, 320, 400, 500, 640, 800, 1000, 1300, 1600, 2000, 2500, 3200, 4000, 5000]
     # group n's per case to amortise process start-up
     per = 1
     for i in range(0, len(ns), per):
